@@ -27,6 +27,9 @@ return `Option` and their `none` cases are characterised exactly below.
   the UNFIXED code violates this (F-C32)                      unfixed_counterexample, fix_is_conservative
   seconds → duration preserves sign and saturates             from_seconds_never_panics, from_seconds_saturates,
                                                               from_seconds_sign (integer core),
+                                                              from_seconds_within_second (no carry into the
+                                                              seconds field), from_seconds_error_bound (result
+                                                              in (x·2³² − 2, x·2³²], exact-rational fraction),
                                                               from_seconds_preserves_sign (F64, under the
                                                               stated hardware facts `HwFloor`)
   duration → seconds → duration changes it by < 1e-9 + 1 unit roundtrip_ideal_bound — IDEALISED: exact rational
@@ -260,6 +263,50 @@ theorem from_seconds_sign (ii frac : Int) (hf : 0 ≤ frac ∧ frac ≤ U32_MAX)
   repeat' split
   all_goals omega
 
+/-- The fraction word never carries into the seconds field: for an integer part that fits `i32` the
+    result lies in the second `[ii, ii+1)`.  (A scale factor that lets the fraction word reach 2³² — e.g.
+    `f * 2³²` with `f` rounded to 1.0 — violates the hypothesis `frac ≤ u32::MAX`, and then the result is a
+    whole second off: see the example below.) -/
+theorem from_seconds_within_second (ii frac : Int) (hf : 0 ≤ frac ∧ frac ≤ U32_MAX)
+    (hi : I32_MIN ≤ ii ∧ ii ≤ I32_MAX) :
+    ∃ d, fromSecondsInt ii frac = some d ∧ ii * 4294967296 ≤ d ∧ d < (ii + 1) * 4294967296 := by
+  obtain ⟨d, hd, _, _, _, he⟩ := from_seconds_sign ii frac hf
+  refine ⟨d, hd, ?_⟩
+  have := he hi
+  unfold U32_MAX at hf
+  omega
+
+/-- what goes wrong without that hypothesis: a fraction word of 2³² next to the integer part −1
+    (`−1e-17 s` under a `2³²` scale) gives −1 s instead of ≈ 0 -/
+example : fromSecondsInt (-1) 4294967296 = some (-4294967296) := by decide
+
+/-- Error bound of the integer core against the exact value.  Let the seconds value be the rational
+    `x = ii + n/D` (`0 ≤ n < D`) and let the fraction word be the truncation of `(n/D)·(2³²−1)`
+    (`frac·D ≤ n·(2³²−1) < (frac+1)·D`).  Then the result `d` satisfies `−2 < d − x·2³² ≤ 0`
+    (stated multiplied by `D`): it is never above and less than two units (2⁻³¹ s) below the exact value. -/
+theorem from_seconds_error_bound (ii frac n D : Int) (hi : I32_MIN ≤ ii ∧ ii ≤ I32_MAX)
+    (hn : 0 ≤ n ∧ n < D) (hlo : frac * D ≤ n * 4294967295) (hhi : n * 4294967295 < (frac + 1) * D) :
+    ∃ d, fromSecondsInt ii frac = some d ∧
+      -2 * D < (d - ii * 4294967296) * D - n * 4294967296 ∧
+      (d - ii * 4294967296) * D - n * 4294967296 ≤ 0 := by
+  have hD : 0 < D := by omega
+  have hf0 : 0 ≤ frac := by
+    apply Classical.byContradiction; intro hneg
+    have h1 : frac + 1 ≤ 0 := by omega
+    have h2 : (frac + 1) * D ≤ 0 := Int.mul_nonpos_of_nonpos_of_nonneg h1 (by omega)
+    omega
+  have hf1 : frac ≤ U32_MAX := by
+    unfold U32_MAX
+    apply Classical.byContradiction; intro hbig
+    have h1 : 4294967296 ≤ frac := by omega
+    have h2 : 4294967296 * D ≤ frac * D := Int.mul_le_mul_of_nonneg_right h1 (by omega)
+    omega
+  obtain ⟨d, hd, _, _, _, he⟩ := from_seconds_sign ii frac ⟨hf0, hf1⟩
+  refine ⟨d, hd, ?_⟩
+  have hde : d - ii * 4294967296 = frac := by have := he hi; omega
+  rw [hde, Int.add_mul] at *
+  omega
+
 example : fromSecondsInt (-1) 4294967295 = some (-1) ∧ fromSecondsInt 1 2147483647 = some 6442450943 ∧
     fromSecondsInt 2147483648 0 = some I64_MAX ∧ fromSecondsInt (-2147483649) 5 = some I64_MIN := by decide
 
@@ -454,6 +501,8 @@ end NtpVerif.C32
 #print axioms NtpVerif.C32.from_seconds_none_iff
 #print axioms NtpVerif.C32.from_seconds_saturates
 #print axioms NtpVerif.C32.from_seconds_sign
+#print axioms NtpVerif.C32.from_seconds_within_second
+#print axioms NtpVerif.C32.from_seconds_error_bound
 #print axioms NtpVerif.C32.from_seconds_preserves_sign
 #print axioms NtpVerif.C32.roundtrip_ideal_bound
 #print axioms NtpVerif.C32.short_roundtrip
